@@ -62,6 +62,24 @@ func main() {
 	}
 	seed, _ := strconv.Atoi(os.Getenv("VERIF_SEED"))
 	p := core.Registry[*prop]
+	if *prop == "ALL" {
+		// developer mode: every distinct rule once (first registration wins), for cross-property sweeps
+		p = &core.Property{ID: "ALL"}
+		seen := map[string]bool{}
+		var ids []string
+		for id := range core.Registry {
+			ids = append(ids, id)
+		}
+		sort.Strings(ids)
+		for _, id := range ids {
+			for _, r := range core.Registry[id].Rules {
+				if !seen[r.ID] {
+					seen[r.ID] = true
+					p.Rules = append(p.Rules, r)
+				}
+			}
+		}
+	}
 	if p == nil {
 		fmt.Fprintf(os.Stderr, "unknown property %q\n", *prop)
 		os.Exit(2)
